@@ -182,6 +182,9 @@ func (k Keeper) DeleteMeta(ctx sdk.Context, dataId string) error {
 	key := fmt.Sprintf("%s-%s-%s", metadata.Owner, metadata.Alias, metadata.GroupId)
 	k.RemoveMetadata(ctx, dataId)
 	k.RemoveModel(ctx, key)
+	// the scheduled deletion goes with the model, otherwise a model re-created under the same data id
+	// would be deleted at the stale height
+	k.removeDataExpireBlock(ctx, dataId, metadata.CreatedAt+metadata.Duration)
 
 	return nil
 }
